@@ -1,13 +1,14 @@
 (* C08 — application traffic flows only inside a completed logon.  Statements only.
-   The full trace-level statement (c08_check = []) is FALSE of the faithful model (and of the code): see KNOWN_FINDINGS.txt
-   sig=drain-after-disconnect and sig=queued-app-flushed-outside-logon; c08_check reports exactly those classes on the
-   implementation.  Proved here:
-     - the step-level facts the statement rests on (first block);
-     - TRACE LEVEL, every configuration and event list: clauses 801 (first message on a connection is a Logon or a Logout)
-       and 805 (nothing written after the close) never fail;
-     - clauses 802, 803, 804, 806 each refuted by a concrete event list (`_refuted`, vm_compute);
-     - TRACE LEVEL, every configuration and every event list that never buffers a frame in messageIn: clauses 803, 804,
-       806 never fail - the buffered-frame drain of the finding is the only way the model violates them. *)
+   With the finding drain-after-disconnect (F17) repaired - handleDisconnectState lets the session handle what is buffered
+   in messageIn FIRST, in the state it is still in and with the channel open, and notifies / closes once - every clause of
+   c08_check but 802 holds on EVERY trace of the model:
+     - TRACE LEVEL, every configuration, both roles, every event list (frames buffered at a self-initiated disconnect
+       included): clauses 801 (first message on a connection is a Logon or a Logout), 805 (nothing written after the
+       close), 803 (FromApp only between the logon and the logout notification), 804 (never two logout notifications),
+       806 (a logged-on period never ends without the logout notification) never fail;
+     - clause 802 is refuted on arbitrary event lists by an APPLICATION that sends a Logout-typed message itself and keeps
+       sending (`_refuted`, vm_compute); the former witnesses of 803 / 804 / 806 now pass the whole predicate (Examples);
+     - the step-level facts the statement rests on (first block). *)
 From Coq Require Import ZArith List Bool.
 From QF Require Import Base.Bytes Session.Types Session.Model Session.Spec Session.LocalProofs Session.FrameProofs
   Session.TraceProofs Session.C08WireProofs Session.C08CbProofs Session.C08TraceProofs Session.C08QuietProofs.
@@ -45,8 +46,7 @@ Proof. exact timer_dead_peer. Qed.
 
 (* TRACE LEVEL.  At every event boundary of every trace: a connected session has both channels open, a disconnected one has
    both closed and nothing buffered.  With c08_no_write_after_close this is "after a disconnect nothing more is written to
-   that connection" for the steps that follow the disconnect (what happens INSIDE the disconnecting step is the recorded
-   finding drain-after-disconnect). *)
+   that connection" for the steps that follow the disconnect (inside the disconnecting step: clause 805 below). *)
 Theorem c08_channels_follow_the_state : forall c es, Forall Boundary (run_trace es (init_sess c)).
 Proof. exact trace_boundary. Qed.
 
@@ -67,29 +67,49 @@ Theorem c08_first_message_is_logon_or_logout_and_nothing_after_close : forall c 
   free_of [801; 805] (c08_check (combine es (map obs_of (run_trace es (init_sess c))))) = true.
 Proof. exact c08_first_message_and_silence_after_close. Qed.
 
-(* the coupling behind 805: at every event boundary of every trace the automaton of c08_check believes the connection
-   is up exactly when the model's outbound channel (messageOut) is open *)
+(* ... and on every trace of the model, frames buffered in messageIn at a self-initiated disconnect included:
+     803: FromApp only between the logon notification and the logout notification,
+     804: never a second logout notification for one logged-on period,
+     806: a logged-on period never ends (connection closed) without the logout notification.
+   (Before the repair of F17 these three were refuted by buffered frames processed after the close; they were provable
+   only on traces that buffer nothing.  The hypothesis is gone.) *)
+Theorem c08_delivery_and_notifications_on_every_trace : forall c es,
+  free_of [803; 804; 806] (c08_check (combine es (map obs_of (run_trace es (init_sess c))))) = true.
+Proof. exact c08_notifications_on_every_trace. Qed.
+
+(* together: every clause of c08_check except 802 *)
+Theorem c08_every_clause_but_802 : forall c es,
+  free_of [801; 805; 803; 804; 806] (c08_check (combine es (map obs_of (run_trace es (init_sess c))))) = true.
+Proof. exact c08_all_but_802. Qed.
+
+(* the couplings behind them: at every event boundary of every trace the automaton of c08_check believes the connection
+   is up exactly when the model's outbound channel (messageOut) is open, and believes the session "logged" exactly when the
+   session is logged on or has sent its Logout and is still connected *)
 Theorem c08_automaton_follows_the_channel : forall c es,
   Forall2 (fun k s => k_connected k = s_out_open s)
           (c08_states c08_init (combine es (map obs_of (run_trace es (init_sess c))))) (run_trace es (init_sess c)).
 Proof. exact c08_coupling. Qed.
+Theorem c08_automaton_follows_the_logon : forall c es,
+  Forall2 (fun k s => k_logged k = gl (s_st s))
+          (c08_states c08_init (combine es (map obs_of (run_trace es (init_sess c))))) (run_trace es (init_sess c)).
+Proof. exact c08_logged_coupling. Qed.
 
 (* one event, any state: while the outbound channel is closed an event other than Connect writes nothing and does not
-   re-open the channel (this includes drainMessageIn running the handlers on buffered frames after the close) *)
+   re-open the channel *)
 Theorem c08_closed_channel_stays_silent : forall s e, e <> EConnect -> s_out_open s = false ->
   s_wire (step s e) = [] /\ s_out_open (step s e) = false.
 Proof. exact step_closed_writes_nothing. Qed.
 
-(* one event, any state: setState - handleDisconnectState, the close, drainMessageIn - never writes to the wire *)
-Theorem c08_set_state_writes_nothing : forall s next, s_wire (set_state s next) = s_wire s.
-Proof. exact set_state_wire. Qed.
-
-(* one event: an acceptor in logonState with the channel open writes nothing but Logon / Logout messages, and when it
-   has written nothing it is still in logonState or has disconnected *)
-Theorem c08_logon_state_writes_logon_or_logout_only : forall s e, e <> EConnect ->
-  s_st s = SLogon -> initiator s = false -> s_out_open s = true ->
-  Forall lgm (s_wire (step s e))
-  /\ (s_wire (step s e) = [] -> s_st (step s e) = SLogon \/ is_connected (s_st (step s e)) = false).
+(* one event: from an acceptor in logonState that has written nothing, the FIRST message written in the event - whatever
+   the buffered frames make the session do afterwards - is a Logon or a Logout, and when nothing is written the session
+   is still an acceptor in logonState or has disconnected.
+   (Statement changed with the repair: "everything written in the event is a Logon or a Logout" no longer holds, since a
+   buffered Logon is now accepted before the disconnect and further buffered frames are answered in session.) *)
+Theorem c08_logon_state_first_message : forall s e, e <> EConnect -> Boundary s ->
+  s_st s = SLogon -> initiator s = false ->
+  FirstOK (step s e)
+  /\ (s_wire (step s e) = [] ->
+      (s_st (step s e) = SLogon /\ initiator (step s e) = false) \/ is_connected (s_st (step s e)) = false).
 Proof. exact step_logon_acceptor. Qed.
 
 (* its hypotheses hold of the state an acceptor is in after Connect, and the step is not trivial: the Logon is answered *)
@@ -99,73 +119,11 @@ Example c08_logon_state_hypotheses :
   /\ map o_type (s_wire (step s (EIncoming (c08_ex_msg T_LOGON 1)))) = [T_LOGON].
 Proof. exact c08_ex_logon_state. Qed.
 
-(* The remaining clauses do NOT hold on every trace of the model (nor of the code: the two recorded findings).
-   Each is refuted by a concrete event list evaluated by vm_compute. *)
-(* 806: a logged-on period ends without a logout notification (drain-after-disconnect: acceptor in logonState, a Logon
-   buffered, a non-Logon frame processed - the buffered Logon is handled after the close: OnLogon, never OnLogout) *)
-Theorem c08_logout_notification_refuted :
-  exists c es, free_of [806] (c08_check (combine es (map obs_of (run_trace es (init_sess c))))) = false.
-Proof. exact c08_806_refuted. Qed.
-(* 804: two logout notifications for one logged-on period (drain-after-disconnect, F17) *)
-Theorem c08_single_logout_notification_refuted :
-  exists c es, free_of [804] (c08_check (combine es (map obs_of (run_trace es (init_sess c))))) = false.
-Proof. exact c08_804_refuted. Qed.
-(* 803: an application message delivered after the logout notification (drain-after-disconnect, F17) *)
-Theorem c08_delivery_inside_logon_refuted :
-  exists c es, free_of [803] (c08_check (combine es (map obs_of (run_trace es (init_sess c))))) = false.
-Proof. exact c08_803_refuted. Qed.
-(* 802: a first-time application message written after the engine's Logout (queued-app-flushed-outside-logon) *)
-Theorem c08_first_time_app_inside_logon_refuted :
-  exists c es, free_of [802] (c08_check (combine es (map obs_of (run_trace es (init_sess c))))) = false.
-Proof. exact c08_802_refuted. Qed.
-
-(* the witnesses, and what c08_check reports on them *)
-Example c08_witness_806 : c08_trace_check (c08_ex_cfg Acceptor) c08_ex_806 = [(2%nat, 806)].
-Proof. exact c08_ex_806_run. Qed.
-Example c08_witness_803_804 : c08_trace_check (c08_ex_cfg Acceptor) c08_ex_803_804 = [(4%nat, 803); (4%nat, 804)].
-Proof. exact c08_ex_803_804_run. Qed.
-Example c08_witness_802 : c08_trace_check (c08_ex_cfg Acceptor) c08_ex_802 = [(5%nat, 802)].
-Proof. exact c08_ex_802_run. Qed.
-(* non-vacuity of the proved clauses: the second witness connects, writes (a Logon, later a Logout) and closes *)
-Example c08_trace_theorem_nontrivial :
-  let tr := run_trace c08_ex_803_804 (init_sess (c08_ex_cfg Acceptor)) in
-  map (fun s => length (s_wire s)) tr = [0; 1; 0; 0; 1]%nat /\ map s_closed tr = [false; false; false; false; true].
-Proof. exact c08_ex_nontrivial. Qed.
-
-(* ---------------------------------------------------------------------------------------------------------------------
-   The boundary of the finding drain-after-disconnect, machine-checked from the other side: on every trace on which no
-   frame is ever buffered in messageIn (quiet_ev: every event but an arrival into a channel with room; i.e. every frame is
-   processed as it arrives) the delivery / notification clauses DO hold, for every configuration and both roles:
-     803  FromApp only between the logon notification and the logout notification,
-     804  never a second logout notification for one logged-on period,
-     806  a logged-on period never ends (connection closed) without the logout notification.
-   So processing buffered frames after the close (drainMessageIn in the old state) is the only way the model violates
-   them.  (802 is not among them: its witness c08_ex_802 buffers nothing - c08_witness_802_buffers_nothing.) *)
-Theorem c08_notifications_hold_when_nothing_is_buffered : forall c es, Forall (quiet_ev c) es ->
-  free_of [803; 804; 806] (c08_check (combine es (map obs_of (run_trace es (init_sess c))))) = true.
-Proof. exact c08_notifications_when_nothing_buffered. Qed.
-
-(* the two ways to satisfy the hypothesis for every event list: no arrival events at all, or InChanCapacity = 0 *)
-Theorem c08_notifications_hold_without_arrivals : forall c es, no_arrive es = true ->
-  free_of [803; 804; 806] (c08_check (combine es (map obs_of (run_trace es (init_sess c))))) = true.
-Proof. exact c08_notifications_without_arrivals. Qed.
-Theorem c08_notifications_hold_with_unbuffered_channel : forall c es, c_in_cap c = 0%nat ->
-  free_of [803; 804; 806] (c08_check (combine es (map obs_of (run_trace es (init_sess c))))) = true.
-Proof. exact c08_notifications_unbuffered_channel. Qed.
-
-(* one event, nothing buffered, any reachable shape of state (latent, logon, logout, or logged on): the callbacks of the
-   event are "what the handler logs - never OnLogout, and no FromApp unless inside a logon - followed by what
-   handleDisconnectState logs: at most one OnLogout, then the store reset"; a close is accompanied by the logout
-   notification unless the session was not inside a logon and no OnLogon was issued *)
-Theorem c08_event_shape_when_nothing_is_buffered : forall s e,
-  s_in_buf s = [] -> (gst (s_st s) = true \/ s_st s = SLogon) -> quiet_ev (s_cfg s) e ->
-  exists hc dl rd,
-    rev (s_cbs (step s e)) = hc ++ dcs dl rd /\ Forall (cb_ok Lnologout) hc
-    /\ (gl (s_st s) = false -> Forall no_fromapp hc)
-    /\ (s_closed (step s e) = true -> dl = true \/ (gl (s_st s) = false /\ has_onlogon hc = false))
-    /\ gl (s_st (step s e)) = (if dl then false else gl (s_st s) || has_onlogon hc)
-    /\ s_in_buf (step s e) = [] /\ (gst (s_st (step s e)) = true \/ s_st (step s e) = SLogon).
-Proof. exact quiet_step. Qed.
+(* one event, any well-shaped state (latent, logon, logout or logged on), frames buffered or not: the invariant RI of the
+   event - no 803 from the callbacks so far, "logged" = the session state, no logout notification and no close while
+   connected, at most one logout notification - holds of the result; k0 is the automaton at the start of the event *)
+Theorem c08_event_invariant : forall k0 s e, Boundary s -> WSt (s_st s) -> k_logged k0 = gl (s_st s) -> RI k0 (step s e).
+Proof. exact ri_step. Qed.
 
 (* every message handler, in every state: the callback log only grows and never by OnLogout - the logout notification is
    issued by handleDisconnectState only (same for the timer and stop handlers: cb_state_timeout, cb_state_stop in
@@ -174,11 +132,34 @@ Theorem c08_handlers_never_notify_logout : forall st s m s1 next, state_fix_msg_
   exists new, s_cbs s1 = new ++ s_cbs s /\ Forall (fun c => c <> CbOnLogout) new.
 Proof. exact handlers_never_notify_logout. Qed.
 
-(* non-vacuity: a trace without arrivals that logs on, hands an application message over, sends one and logs out passes
-   the whole predicate *)
-Example c08_quiet_trace_example :
-  no_arrive c08_ex_quiet = true /\ c08_trace_check (c08_ex_cfg Acceptor) c08_ex_quiet = []
+(* The one clause that does NOT hold on every trace of the model: 802.  The finding queued-app-flushed-outside-logon is
+   repaired; what refutes the clause on arbitrary event lists is an application that itself sends a Logout-typed message
+   through SendToTarget and keeps sending: the session stays logged on, the predicate has seen "our Logout" on the wire. *)
+Theorem c08_first_time_app_inside_logon_refuted :
+  exists c es, free_of [802] (c08_check (combine es (map obs_of (run_trace es (init_sess c))))) = false.
+Proof. exact c08_802_refuted. Qed.
+Example c08_witness_802 : c08_trace_check (c08_ex_cfg Acceptor) c08_ex_802 = [(5%nat, 802)].
+Proof. exact c08_ex_802_run. Qed.
+
+(* the former witnesses of 806 and of 803 / 804 (frames buffered when the session disconnects itself) now pass the whole
+   predicate; in the second one the buffered application message is handed over and the buffered Logout answered BEFORE
+   the single logout notification *)
+Example c08_former_witness_806 : c08_trace_check (c08_ex_cfg Acceptor) c08_ex_806 = [].
+Proof. exact c08_ex_806_run. Qed.
+Example c08_former_witness_803_804 : c08_trace_check (c08_ex_cfg Acceptor) c08_ex_803_804 = [].
+Proof. exact c08_ex_803_804_run. Qed.
+Example c08_former_witness_803_804_order :
+  map (fun c => match c with CbFromApp _ _ _ _ => 1 | CbFromAdmin _ _ _ => 2 | CbToAdmin _ => 4 | CbOnLogout => 6 | _ => 0 end)
+      (rev (s_cbs (last (run_trace c08_ex_803_804 (init_sess (c08_ex_cfg Acceptor))) (init_sess (c08_ex_cfg Acceptor)))))
+  = [2; 4; 1; 2; 4; 6].
+Proof. exact c08_ex_803_804_order. Qed.
+(* non-vacuity of the trace theorems: that trace connects, writes (a Logon, later two Logouts) and closes ... *)
+Example c08_trace_theorem_nontrivial :
+  let tr := run_trace c08_ex_803_804 (init_sess (c08_ex_cfg Acceptor)) in
+  map (fun s => length (s_wire s)) tr = [0; 1; 0; 0; 2]%nat /\ map s_closed tr = [false; false; false; false; true].
+Proof. exact c08_ex_nontrivial. Qed.
+(* ... and a trace that logs on, hands an application message over, sends one and logs out passes the whole predicate *)
+Example c08_plain_trace_example :
+  c08_trace_check (c08_ex_cfg Acceptor) c08_ex_quiet = []
   /\ map (fun s => length (s_cbs s)) (run_trace c08_ex_quiet (init_sess (c08_ex_cfg Acceptor))) = [0; 3; 1; 1; 0; 3]%nat.
 Proof. exact c08_ex_quiet_ok. Qed.
-Example c08_witness_802_buffers_nothing : no_arrive c08_ex_802 = true.
-Proof. exact c08_ex_802_quiet. Qed.
